@@ -29,7 +29,9 @@ type c10Case struct {
 	Binary    bool   `json:"binary"`
 	Upgraded  bool   `json:"session_upgraded_from_polling"`
 	PMD       bool   `json:"permessage_deflate"` // WebSocket: compression negotiated, the frame travels compressed
-	Seed      string `json:"seed"`
+	// JSONP (polling): the session was opened with the j parameter, data requests are form bodies d=<payload>
+	JSONP bool   `json:"jsonp"`
+	Seed  string `json:"seed"`
 }
 
 // what net/http itself may drain from an unread body after the handler returned
@@ -62,6 +64,7 @@ func genC10(rng *rand.Rand) c10Case {
 	c.Binary = c.Transport != "polling" && rng.IntN(2) == 0
 	c.Upgraded = c.Transport != "polling" && c.Limit >= 100 && rng.IntN(2) == 0
 	c.PMD = c.Transport == "websocket" && rng.IntN(3) == 0
+	c.JSONP = c.Transport == "polling" && c.Packets == 1 && rng.IntN(3) == 0
 	return c
 }
 
@@ -179,7 +182,7 @@ func runC10(c c10Case, rng *rand.Rand, r *rep.Report) (key, msg string, stats ma
 			if c.Upgraded {
 				start = "polling"
 			}
-			cl, err := w.Connect(rig.ClientCfg{Rev: c.Rev, Transport: start, WSCompress: c.PMD})
+			cl, err := w.Connect(rig.ClientCfg{Rev: c.Rev, Transport: start, WSCompress: c.PMD, JSONP: c.JSONP, J: "0", B64: c.JSONP && c.Rev == 3})
 			rig.Wait()
 			if err != nil {
 				key, msg = "c10-handshake-failed", err.Error()
@@ -239,9 +242,24 @@ func runC10(c c10Case, rng *rand.Rand, r *rep.Report) (key, msg string, stats ma
 						}
 					}
 				}
+				ctype := "text/plain;charset=UTF-8"
+				if c.JSONP && len(body) > 3 {
+					// the same number of bytes on the wire: d=<payload that needs no escaping>
+					body = append([]byte("d="), body[:len(body)-2]...)
+					if form == "v3s" {
+						inner := "4" + strings.Repeat("a", max(len(body)-2-8, 0))
+						enc := fmt.Sprintf("d=%d:%s", len(inner), inner)
+						for len(enc) < c.Size {
+							enc += "a"
+						}
+						body = []byte(enc)
+					}
+					ctype = "application/x-www-form-urlencoded"
+					stats["jsonp_bodies"]++
+				}
 				nconn := len(w.L.Conns)
 				x := w.Start(rig.ReqSpec{Method: "POST", Target: "/engine.io/?EIO=" + fmt.Sprint(c.Rev) + "&transport=polling&sid=" + sid,
-					Header: map[string][]string{"Content-Type": {"text/plain;charset=UTF-8"}}, Body: body, Chunked: c.Chunked})
+					Header: map[string][]string{"Content-Type": {ctype}}, Body: body, Chunked: c.Chunked})
 				res := x.Wait()
 				time.Sleep(10 * time.Millisecond)
 				rig.Wait()
